@@ -317,9 +317,10 @@ def run_impl(case: dict, hooks: Optional[Hooks] = None) -> dict:
     return obs
 
 
-def run_impl_resume(case: dict, hooks: Optional[Hooks] = None) -> dict:
+def run_impl_resume(case: dict, hooks: Optional[Hooks] = None, keep: Optional[dict] = None) -> dict:
     """Run; when run() raises, call run() again on the same object (crash/resume).  The
-    observation of the first (failed) run is kept under 'first'."""
+    observation of the first (failed) run is kept under 'first'.
+    `keep`, when given, receives the simulator and its context (keep["sim"], keep["ctx"]) for further observation."""
     with noise_stream(case.get("noise", [])) as ns:
         sim, ctx = build_sim(case, hooks)
         err = run_sim(sim)
@@ -330,6 +331,8 @@ def run_impl_resume(case: dict, hooks: Optional[Hooks] = None) -> dict:
             err2 = run_sim(sim)
             obs = observe(sim, ctx, err2)
             obs["first"] = first
+        if keep is not None:
+            keep["sim"], keep["ctx"] = sim, ctx
         obs["noise_draws"] = ns["k"]
     return obs
 
